@@ -76,8 +76,9 @@ class ProgGen:
     """Builds one program: (source text, number of value slots).  Values are referred to as V[i]; the runner
     fills V with generated runtime values."""
 
-    def __init__(self, rnd: random.Random, nvals: int, safe_generators: bool = False):
+    def __init__(self, rnd: random.Random, nvals: int, safe_generators: bool = False, many_live: int = 0):
         self.r = rnd
+        self.many_live = many_live      # > 0: the workload also keeps that many generator frames suspended at once
         self.nvals = nvals
         self.safe_generators = safe_generators
         self.lines = []
@@ -313,7 +314,7 @@ class ProgGen:
             self.w("R.reg(tco)")
             self.gens.append(("tco", ["{0}"]))
             self.w("")
-        if r.random() < 0.35:
+        if not self.safe_generators and r.random() < 0.35:      # (the end-to-end tie keys its observations by qualified name)
             # the same qualified name for two different code objects: a helper defined differently in two branches,
             # both variants run in one session (the first one through an alias)
             self.w("def variant(a):")
@@ -335,6 +336,20 @@ class ProgGen:
             calls = self.def_coro(f"co{i}")
             self.w(f"R.reg(co{i})")
             self.coros.append((f"co{i}", calls))
+            self.w("")
+        if self.many_live:
+            self.w("def sg(a, b=None):")
+            self.w("    R.enter(['a', 'b'])")
+            self.w("    _v = V[R.tick() % 3]")
+            self.w("    R.act('yield', _v)")
+            self.w("    _s = yield _v")
+            self.w("    a = V[3]")
+            self.w("    _v = V[4]")
+            self.w("    R.act('yield', _v)")
+            self.w("    _s = yield _v")
+            self.w("    R.act('return', a)")
+            self.w("    return a")
+            self.w("R.reg(sg)")
             self.w("")
         # workload
         self.w("def main():")
@@ -392,6 +407,14 @@ class ProgGen:
             self.w("            list(_g)")
             self.w("        except Boom:")
             self.w("            pass")
+        if self.many_live:
+            self.w(f"    _many = [sg(V[i % {self.nvals}], i) for i in range({self.many_live})]")
+            self.w("    for _g in _many:")
+            self.w("        next(_g)")
+            self.w("    for _g in _many:")
+            self.w("        next(_g)")
+            self.w("    for _g in reversed(_many):")
+            self.w("        list(_g)")
         self.w("    R.act('return', None)")
         self.w("R.reg(main)")
         return "\n".join(self.lines) + "\n"
